@@ -1,5 +1,5 @@
 (* C03 correspondence and validators. *)
-From Apko Require Export Base.Prelude Base.Regex Spec.VersionSpec Model.Version
+From Apko Require Export Base.Prelude Base.Regex Spec.VersionSpec Model.Version Model.VersionFilter
   Generated.Regexes Generated.VersionConsts Generated.C03Version.
 Open Scope string_scope. Open Scope list_scope. Open Scope Z_scope.
 
@@ -127,3 +127,36 @@ Definition check_res (c : res_case) : list string :=
   let m := resolve_constraint (r_str c) in
   tag_if (negb (String.eqb (c_name m) (r_name c) && String.eqb (c_version m) (r_ver c) &&
                 (c_dep m =? r_dep c) && String.eqb (c_pin m) (r_pin c))) "mismatch:resolve-constraint".
+
+(* ---- filterPackages on one candidate (the resolver's operator dispatch) ---- *)
+(* f_own: the candidate carries the constraint's name itself; f_provs: its provides
+   (full strings).  f_obs: did the real filterPackages let it through. *)
+Record flt_case := { f_name : string; f_op : string; f_cver : string; f_ver : string; f_provs : list string;
+                     f_obs : bool; f_clean : bool }.
+
+Definition spec_prov_ok (op : vop) (r : ver) (prov : string) : bool :=
+  let pv := c_version (resolve_constraint prov) in
+  if String.eqb pv "" then false
+  else match spec_parse pv with
+       | Some b => fits_int64 b && spec_sat op b r
+       | None => false
+       end.
+
+Definition check_filter (c : flt_case) : list string :=
+  let full := String.append (f_name c) (String.append (f_op c) (f_cver c)) in
+  let m := resolve_constraint full in
+  (* validator: the operator accepts exactly what the order dictates, by the candidate's own version or a provided one *)
+  (if f_clean c then
+     match spec_parse (f_ver c), spec_parse (f_cver c) with
+     | Some a, Some r =>
+         if fits_int64 a && fits_int64 r && forallb (fun p => match spec_parse (c_version (resolve_constraint p)) with
+                                                              | Some b => fits_int64 b | None => true end) (f_provs c) then
+           let want := spec_sat (vop_of_string (f_op c)) a r || existsb (spec_prov_ok (vop_of_string (f_op c)) r) (f_provs c) in
+           tag_if (negb (Bool.eqb (f_obs c) want))
+             (if f_obs c then "viol:resolver-filter-accepts-against-apk-order" else "viol:resolver-filter-rejects-against-apk-order")
+         else []
+     | _, _ => []
+     end
+   else []) ++
+  (* model vs implementation *)
+  tag_if (negb (Bool.eqb (filter_one m (f_ver c) (f_provs c)) (f_obs c))) "mismatch:filter-packages".
